@@ -97,7 +97,7 @@ def _exc_cases(draw):
 
 @st.composite
 def _rec_cases(draw, max_n=5000):
-    spec = draw(gen.record_specs(min_n=2, max_n=max_n, kinds=KINDS, allow_int=True))
+    spec = draw(gen.record_specs(min_n=4, max_n=max_n, kinds=KINDS, allow_int=True))
     case = {"rec": spec}
     if draw(st.integers(0, 2)) == 0:
         # shift by a fraction of the peak: non-zero starts, long one-signed stretches with many peaks per excursion
@@ -110,7 +110,7 @@ def _rec_cases(draw, max_n=5000):
 
 
 def _cases(max_n=5000):
-    return st.one_of(_rec_cases(max_n=max_n), _rec_cases(max_n=max_n), _exc_cases())
+    return st.one_of(_rec_cases(max_n=max_n), _exc_cases())
 
 
 def _classify(ctx, case, a):
@@ -255,14 +255,14 @@ def exhaustive(case, ctx):
 
 
 @clause(CLAUSES, "random", _cases(), quick=500, thorough=3000,
-        rule="records of all kinds (n 2..5000; ndarray / int / list), optionally shifted by a fraction of the peak (non-zero starts, "
+        rule="records of all kinds (n 4..5000; ndarray / int / list), optionally shifted by a fraction of the peak (non-zero starts, "
              "long one-signed stretches), rounded to a symmetric coarse grid (zero runs, ties) or rescaled by 2^k (|k| <= 300), plus structured series of 1-8 "
              "excursions with 3-9 dyadic levels each and zero runs between; "
              "non-trivial = some excursion's largest |value| is not at its first reported peak",
         oracle="reference model for crossings (exact), statement predicates + canonical reference for switched peaks; "
                "object-level wrappers agree with the array functions; input unchanged",
-        require={"nonzero-start": 0.40, "3+levels-excursion": 0.5, "zero-turning-point": 0.03, "n>512": 0.10, "rescaled": 0.04},
-        min_nontrivial=0.3)
+        require={"nonzero-start": 0.40, "3+levels-excursion": 0.35, "zero-turning-point": 0.03, "n>512": 0.03, "rescaled": 0.02},
+        min_nontrivial=0.2)
 def random(case, ctx):
     a, arg = series(case)
     _classify(ctx, case, a)
@@ -375,7 +375,7 @@ def _check_tol(ctx, a, arg, tol, base=None):
         oracle="metamorphic: result(tol) is a subsequence of result(0) for crossings (both keep_adj_zeros modes) and switched "
                "peaks; tol < 0 rejected by the crossings function; C12-KF1 routes extras that precede the first peak >= tol",
         require={"tol>first-peak": 0.2, "sw-pruned": 0.2, "zc-pruned": 0.1, "nonzero-start": 0.3},
-        min_nontrivial=0.3)
+        min_nontrivial=0.2)
 def tol(case, ctx):
     a, arg = series(case)
     _classify(ctx, case, a)
